@@ -93,6 +93,25 @@ pub fn check(v: &View, vd: &mut Verdict) {
                 }
                 if stream {
                     vd.class("stream_actor_last_drop");
+                    // the closed mailbox is "ready" in every round of the fair select from the last drop on
+                    // (once no in-flight operation holds a temporary): 48 items in a row mean it was not looked at
+                    let from = v.ops.iter().filter(|p| p.actor == Some(a) && p.begin < z).map(|p| p.end_or_max()).max().unwrap_or(0).max(z);
+                    if from != u64::MAX {
+                        let mut mine: Vec<&InvRec> = v.invs.iter().filter(|i| i.actor == a && i.enter > from).collect();
+                        mine.sort_by_key(|i| i.enter);
+                        let (mut run, mut worst) = (0usize, 0usize);
+                        for i in mine {
+                            if matches!(i.msg, MsgRef::Item(_)) {
+                                run += 1;
+                                worst = worst.max(run);
+                            } else {
+                                run = 0;
+                            }
+                        }
+                        if worst >= 48 {
+                            vd.fail("C05/last_drop_starved_by_items", format!("actor {a}: the last strong handle was dropped at {z} (nothing in flight after {from}), yet {worst} stream items in a row were handled before the loop noticed"));
+                        }
+                    }
                 }
                 for o in v.client_ops().filter(|o| !stream && o.actor == Some(a) && matches!(o.what, OpWhat::Send | OpWhat::Call) && o.ok()) {
                     if o.end.is_some_and(|e| e < z) {
